@@ -215,6 +215,7 @@ class TeamServer:
         self.queue = []  # tasks to hand out: (epoch, command, data)
         self.log = []  # [(kind, raw_request, raw_response, decoded)]
         self.keys = None
+        self.iv = b"abcdefghijklmnop"  # the IV both ends of the session are configured with
         self.masks = []
 
     def route(self, method, path):
@@ -246,18 +247,18 @@ class TeamServer:
                 # (CR, LF, blank, tab, NUL): advance the epoch until the signature's last byte is one of them
                 epoch, cmd, data, edge = task
                 for e in range(epoch, epoch + 4096):
-                    if enc_task(e, cmd, data, *self.keys)[-1] in edge:
+                    if enc_task(e, cmd, data, *self.keys, self.iv)[-1] in edge:
                         epoch = e
                         break
                 task = (epoch, cmd, data)
             self.last_task = task
-            payload = enc_task(*task, *self.keys) if task else b""
+            payload = enc_task(*task, *self.keys, self.iv) if task else b""
             decoded["task"] = task
             resp_body = T.server_encode(self.cfg["recover_steps"], payload, masks=list(self.masks))
         elif kind == "post":
             msg = message_for_decode(path, params, headers, body, self.cfg["post_steps"])
             d = T.client_decode(self.cfg["post_steps"], msg, base_uri=base)
-            decoded = {"id": d["id"], "callbacks": dec_callbacks(d["output"], *self.keys)}
+            decoded = {"id": d["id"], "callbacks": dec_callbacks(d["output"], *self.keys, self.iv)}
         status = b"HTTP/1.1 200 OK" if kind else b"HTTP/1.1 404 NotFound"
         resp = status + b"\r\nContent-Type: application/octet-stream\r\nContent-Length: " + str(len(resp_body)).encode() + b"\r\nConnection: close\r\n\r\n" + resp_body
         self.log.append((kind, raw, resp, decoded))
